@@ -8,8 +8,8 @@ from common import rel_close
 import gens
 import procoracle as po
 
-FAMILIES = ['process', 'fit', 'membrane']
-BRIDGES = ['br_nonideal_', 'br_pfcall_', 'br_pfmul', 'br_measurements_', 'br_ea_', 'br_from_array_']
+FAMILIES = ['process', 'fit', 'membrane', 'nicurve']
+BRIDGES = ['br_nicurve_', 'br_nonideal_', 'br_pfcall_', 'br_pfmul', 'br_measurements_', 'br_ea_', 'br_from_array_']
 PROPS_V = 'Props/C05.v'
 EXTRA_TARGETS = ['Model/NumCheck.vo']
 BUDGET = {'quick': 10, 'thorough': 150}
@@ -22,7 +22,7 @@ LEVEL_TEXT = ('Coq theorems for any fitted functions and any run length: the ret
               'initial permeances or the fit itself (factor 1); every later permeance pair = fit(x of step i (isothermal) / i+1, T of step i+1) * constant factor. Tie: '
               'non-ideal process bridges (stubs for the solver, find_best_fit - with its requested n, m, include_zero, component index checked - and the activation '
               'energy; PervaporationFunction.__call__ as a cut point bridged separately), measurement-extraction bridges for mass and mole fraction curve sets.')
-LEVEL_NOTE = 'the optimiser is an oracle (its result is an input of the model); non_ideal_diffusion_curve is covered by the sampled runs and C19/C07 oracles only'
+LEVEL_NOTE = 'the optimiser is an oracle (its result is an input of the model)'
 TECHNIQUE = 'Coq proof (exp algebra, induction on steps) + symbolic-trace bridge lemmas with find_best_fit / __call__ as cut points'
 DESIGN_REF = 'DESIGN.md section 6 C05'
 
@@ -96,8 +96,11 @@ def oracle(rng, tier):
                     f0 = fits[i](x0, cfg['T0'])
                     if cfg['ip'] is None and not rel_close(P0, f0, 1e-10):
                         ok, detail = False, 'no initial permeances: step-0 permeance %r, fit gives %r' % (P0, f0)
-                    if cfg['ip'] is not None and not rel_close(P0, cfg['ip'][i].value, 1e-10):
-                        ok, detail = False, 'step-0 permeance %r, supplied %r' % (P0, cfg['ip'][i].value)
+                    if cfg['ip'] is not None:
+                        comp_i = cfg['m'].first_component if i == 0 else cfg['m'].second_component
+                        want = cfg['ip'][i].convert('kg/(m2*h*kPa)', comp_i).value
+                        if not rel_close(P0, want, 1e-9):
+                            ok, detail = False, 'step-0 permeance of component %d is %r, supplied %r %s = %r kg/(m2 h kPa)' % (i, P0, cfg['ip'][i].value, cfg['ip'][i].units, want)
                     FR.append(P0 / f0)
                 for k in range(1, cfg['n']):
                     for i in range(2):
